@@ -129,9 +129,9 @@ def check_case(stats, case):
 
 def run_shard(k, seed, tier):
     stats = Stats()
-    n = 110 if tier == 'quick' else 2500
+    n = 130 if tier == 'quick' else 2500
     feats = (SEQ_FEATURES if k % 3 else ALL_FEATURES) - {'terminal'}
-    strat = programs(features=feats, size=dict(main_stmts=10, funcs=4, arr_len=6))
+    strat = programs(features=feats, size=dict(main_stmts=10, funcs=4, arr_len=6, max_params=5, deep_before_vla_pct=40))
 
     def chk(case):
         if stats.evaluations % 200 == 0:
